@@ -2,6 +2,7 @@ package props
 
 import (
 	"fmt"
+	"os"
 	"strings"
 	"testing"
 	"time"
@@ -24,10 +25,19 @@ type bigCase struct {
 
 var bigFamilies = []string{"blank_lines", "comment_lines", "plain_lines", "labelled_lines", "equ_lines", "one_long_line_of_blanks", "one_long_comment"}
 
+// bigSizes: the quick tier stays below seven million tokens (a nine-million-line text takes ten
+// seconds to assemble); the thorough tier goes on to nine million.
+func bigSizes() []int {
+	if os.Getenv("VERIF_TIER") == "thorough" {
+		return []int{70000, 300000, 1100000, 2200000, 4500000, 9000000}
+	}
+	return []int{300000, 1100000, 4500000, 4500000, 6000000}
+}
+
 func genBigCase(t *rapid.T) bigCase {
 	return bigCase{
 		Family: rapid.SampledFrom(bigFamilies).Draw(t, "family"),
-		Tokens: rapid.SampledFrom([]int{70000, 300000, 1100000, 2200000, 4500000, 9000000}).Draw(t, "tokens"),
+		Tokens: rapid.SampledFrom(bigSizes()).Draw(t, "tokens"),
 		Count:  rapid.SampledFrom([]int{0, 1, 2, 3, 3}).Draw(t, "count"),
 	}
 }
@@ -133,8 +143,8 @@ func judgeBigCase(t testing.TB) func(c bigCase, rec *hx.Rec) string {
 
 func TestC05_Big(t *testing.T) {
 	hx.Run(t, hx.Prop[bigCase]{
-		ID: "C05", Sub: "big", Checks: hx.Scale(12, 400),
-		Rule: "inputs of megabytes: seven families (blank lines, comment lines, plain, labelled and EQU lines, one instruction followed by megabytes of blanks or of comment) of 70 thousand to 9 million tokens, bare or inside a FOR block of count 1..3, assembled in the isolated worker under a valid configuration (core 2^34, length limit 2^30); the call must return within 180 s without panic, with an error xor a warrior (an accepted one with exactly the instructions the text denotes), and leave no goroutine behind. Non-trivial: a million tokens or more; distinct by case hash.",
+		ID: "C05", Sub: "big", Checks: hx.Scale(8, 400),
+		Rule: "inputs of megabytes: seven families (blank lines, comment lines, plain, labelled and EQU lines, one instruction followed by megabytes of blanks or of comment) of 70 thousand to 9 million tokens (quick tier: 0.3 to 6 million), bare or inside a FOR block of count 1..3, assembled in the isolated worker under a valid configuration (core 2^34, length limit 2^30); the call must return within 180 s without panic, with an error xor a warrior (an accepted one with exactly the instructions the text denotes), and leave no goroutine behind. Non-trivial: a million tokens or more; distinct by case hash.",
 		Gen:  genBigCase, Judge: judgeBigCase(t),
 	})
 }
